@@ -36,6 +36,7 @@ package main
 
 import (
 	"bytes"
+	"context"
 	"crypto/sha256"
 	"encoding/hex"
 	"encoding/json"
@@ -49,6 +50,7 @@ import (
 	"strconv"
 	"strings"
 	"sync"
+	"time"
 
 	flagsfiller "github.com/itzg/go-flagsfiller"
 
@@ -901,13 +903,22 @@ func worker(jobsJSON string) {
 	must(json.NewEncoder(os.Stdout).Encode(res))
 }
 
+// runCmd: every child (a generator CLI, go list) runs under a watchdog; a generator that does not
+// return is killed and the generation is recorded with exit code 124 (an error text that differs
+// from the other generations of the definition: a failing input).
 func runCmd(dir string, env []string, name string, args ...string) (int, string) {
-	c := exec.Command(name, args...)
+	ctx, cancel := context.WithTimeout(context.Background(), 5*time.Minute)
+	defer cancel()
+	c := exec.CommandContext(ctx, name, args...)
+	c.WaitDelay = 5 * time.Second
 	c.Dir = dir
 	c.Env = append(append([]string{}, os.Environ()...), env...)
 	var buf bytes.Buffer
 	c.Stdout, c.Stderr = &buf, &buf
 	err := c.Run()
+	if ctx.Err() == context.DeadlineExceeded {
+		return 124, buf.String() + "\nkilled: did not finish within 5m"
+	}
 	if err == nil {
 		return 0, buf.String()
 	}
@@ -1173,7 +1184,10 @@ func main() {
 		sem <- struct{}{}
 		defer func() { <-sem }()
 		jb, _ := json.Marshal(bj)
-		c := exec.Command(self, "-worker", "-jobs", string(jb))
+		wctx, wcancel := context.WithTimeout(context.Background(), 15*time.Minute)
+		defer wcancel()
+		c := exec.CommandContext(wctx, self, "-worker", "-jobs", string(jb))
+		c.WaitDelay = 5 * time.Second
 		var so, se bytes.Buffer
 		c.Stdout, c.Stderr = &so, &se
 		err := c.Run()
@@ -1184,7 +1198,20 @@ func main() {
 		mu.Lock()
 		defer mu.Unlock()
 		if err != nil || len(res) != len(idx) {
-			fail += fmt.Sprintf("worker %v failed: %v\n%s\n", idx, err, se.String())
+			// the in-process generations crashed (a panic outside recover, os.Exit, log.Fatal) or
+			// hung: the definitions keep an observation saying so — it differs from what the
+			// CLIs produce, so the input is reported, not lost
+			msg := fmt.Sprintf("in-process generation did not complete: %v", err)
+			if wctx.Err() == context.DeadlineExceeded {
+				msg = "in-process generation did not return within 15m (killed)"
+			}
+			tail := strings.TrimSpace(se.String())
+			if len(tail) > 100 {
+				tail = tail[len(tail)-100:]
+			}
+			for _, i := range idx {
+				all[i] = append(all[i], obs{Mode: "inproc", State: "fresh", Cfg: "full", Err: msg + " " + tail, Chain: "regular", Seq: 0})
+			}
 			return
 		}
 		for k, i := range idx {
